@@ -1,9 +1,10 @@
 #!/bin/bash
-# usage: neutral_all.sh [workers]
+# usage: neutral_all.sh [workers] [id-regex]   (KEEP_OUT=<dir> keeps the per-patch outputs)
 # Applies every behaviour-preserving patch kept under /verif/neutral/<id>/patch.diff to a scratch worktree of /repo's HEAD and runs all 20
 # quick checks on it.  Every line printed after "ALARMS" is a false alarm (or a patch that no longer applies): the expected output is none.
 V=$(cd "$(dirname "$0")/.." && pwd)
 W=${1:-8}
+RE=${2:-^N}
 R=$(mktemp -d /tmp/neutral-run.XXXXXX)
 one() {
   id=$1; V=$2; R=$3
@@ -14,6 +15,7 @@ one() {
 }
 export -f one
 echo "ALARMS"
-ls "$V/neutral" | grep -E '^N' | xargs -P "$W" -I{} bash -c 'one {} '"$V $R"
+ls "$V/neutral" | grep -E "$RE" | xargs -P "$W" -I{} bash -c 'one {} '"$V $R"
+if [ -n "$KEEP_OUT" ]; then mkdir -p "$KEEP_OUT"; cp "$R"/*.txt "$KEEP_OUT"/; fi
 rm -rf "$R"
 echo "done: $(ls "$V/neutral" | grep -cE '^N') patches"
